@@ -5,12 +5,12 @@ SPEC = dict(
     lean_targets=["SwayVerif.Props.C28"], audit="SwayVerif/Audit/C28.lean",
     theorems=["read_after_write", "write_frame", "write_frame_other_slots", "storage_vec_refines_list", "storage_vec_init",
               "storage_map_refines_fun", "storage_slice_refines_bytes", "op_footprints", "fields_noninterference", "C28_vec_history_partial"],
-    steps=[dict(bin="sv_c28", area="c28", n_quick=240, n_thorough=1200, corpus="corpus/c28.txt",
+    steps=[dict(bin="sv_c28", area="c28", n_quick=180, n_thorough=1080, corpus="corpus/c28.txt",
                 dist_keys=("reverted", "spaced", "fieldsTouched", "opkinds"), timeout=3000,
                 nontrivial=lambda case, impl, kv: int(kv.get("nops", "0")) >= 5)],
     rule="one contract with 9 collection fields (StorageVec<u64> x2 — one in a namespace, StorageVec<(u64,u64,u64)> whose "
          "elements straddle slot boundaries, StorageMap<u64,u64> x2, StorageMap<u64,(u64 x5)> spanning two slots, "
-         "StorageBytes x2, StorageString) built by the real compiler against the real sway-lib-std; random histories of 3-25 "
+         "StorageBytes x2, StorageString) built by the real compiler against the real sway-lib-std; random histories of 3-20 random calls plus, in 3 of 5 histories, one or two scripted motifs around EMPTY values (empty slice written after a non-empty one, clear then read and reuse, vector drained or cleared and reused, pops/gets on empty vectors, map entry removed twice and re-inserted, zero as a present value); "
          "calls (push/pop/get/set/len/remove/insert/swap/swap_remove/clear, insert/get/remove on a small shared key pool, "
          "write_slice/read_slice/len/clear with lengths around the 32-byte boundaries, raw slot reads at derived keys; 10% "
          "end with an out-of-bounds call that must revert), each executed in ONE forc-test transaction on the real FuelVM. "
